@@ -88,7 +88,7 @@ def near_miss_words():
 
 def fam(name, lines, rule, exhaustive=False, categories=None, nontrivial=None, profiles=None, pinned=False):
     return {
-        "profiles": profiles or ["release"],
+        "profiles": profiles or ["release", "chk"],
         "pinned": pinned,
         "name": name,
         "lines": lines,
@@ -101,7 +101,7 @@ def fam(name, lines, rule, exhaustive=False, categories=None, nontrivial=None, p
 
 def fam_cmd(name, cases_args, rule, exhaustive=True, shard=True, profiles=None, pinned=False):
     return {"name": name, "cases_cmd": cases_args, "rule": rule, "exhaustive": exhaustive, "categories": {}, "shard": shard,
-            "profiles": profiles or ["release"], "pinned": pinned}
+            "profiles": profiles or ["release", "chk"], "pinned": pinned}
 
 
 # ---- word-level families ------------------------------------------------------------------------
@@ -463,6 +463,29 @@ def c04_families(rng, tier):
             rnd.append(line("valid %d" % n, h))
             if op:
                 rnd.append(line(op, h))
+    garb = []
+    hi_words = [0xFFFFFFFF, 0xFFFFFFFE, 0xFFFFFFFD, 0xFFFFFFFC, 0xFFFFFFFB, 0xFFFFFFFA, 0xFFFFFFF9, 0x1FFFF000, 0x1FFF8000, 0x1FFF4000]
+    for n in (5, 6, 7):
+        for s_ in range(4):
+            suited = [layout(r, s_) for r in (12, 11, 10, 9, 8, 7, 6)][:n]
+            for slot in range(n):
+                for m in (PAIR, TRIPS, QUADS, PAIR | TRIPS | QUADS):
+                    h = list(suited)
+                    h[slot] |= m
+                    garb.append(line("vrank %d" % n, h))
+                    garb.append(line("valid %d" % n, h))
+                for w in hi_words:
+                    h = list(suited)
+                    h[slot] = w
+                    garb.append(line("vrank %d" % n, h))
+        garb.append(line("vrank %d" % n, hi_words[:n]))
+        garb.append(line("vrank %d" % n, [0x1FFF8000 | (i + 1) for i in range(n)]))
+        for _ in range(300):
+            garb.append(line("vrank %d" % n, [(rng.next() & 0xFFFFFFFF) | 0x8000 for _ in range(n)]))
+            garb.append(line("vrank %d" % n, [rng.next() & 0xFFFFFFFF for _ in range(n)]))
+    fams.append(fam("flush_like_garbage", garb, "sizes 5..7: one-suit hands with one slot flagged (pair/trips/quads) or replaced by a word with "
+                    "all rank bits set, all-garbage hands sharing a suit bit, random u32 hands: words for which UNVALIDATED ranking would index "
+                    "out of range, so validated ranking must return 0 before looking anything up", profiles=["release", "chk"], pinned=True))
     fams.append(fam("slot_substitution", sub, "sizes 2..7: every slot x every alphabet word (52 cards, blank, every single-bit corruption "
                     "of every card, flagged cards, 0xFFFFFFFF, 0..64, inconsistent-field words) substituted into a valid hand: "
                     "is_valid / is_corrupt / are_unique / contain_blank; validated ranking for sizes 5..7 on a sub-alphabet",
@@ -663,6 +686,10 @@ def c12_families(rng, tier):
         fam("hand_texts", hands, "hand parsers of sizes 2..7 (and BinaryCard::from_index, parse::five_from_index) on 0..9 tokens separated by "
             "random Unicode whitespace runs; tokens are cards, junk, or cards with tails", categories=cats, pinned=True),
         fam("arbitrary_strings", arb, "seeded arbitrary scalar-value strings through the card, hand and bit-set parsers", pinned=True),
+        fam_cmd("all_scalars", ["scalars", "--op", "parsecard"],
+                "EVERY Unicode scalar value as the first character of a token (before 'S') and as the second (after 'A') through "
+                "CKCNumber::from_index and parse::get_rank_and_suit: the token-level symbol tables, exhaustively (2 x 1,112,064 cases)",
+                pinned=True),
         fam("render_roundtrip", ["render %d" % w for w in DECK + [0]], "render with rank+suit glyph / rank+suit letter, parse back; 52 cards and blank",
             exhaustive=True, pinned=True),
     ]
@@ -725,6 +752,15 @@ def c15_families(rng, tier):
         k = 2 + i % 6
         hands.append(line("bcfrom %d" % k, card_or_blank_multiset(rng, k, 15)))
     for k in range(2, 8):
+        for i in range(k):
+            for j in range(i + 1, k):
+                h = rand_hand(rng, k)
+                h[j] = h[i]
+                hands.append(line("bcfrom %d" % k, h))
+                g = [0] * k
+                g[i] = g[j] = h[i]
+                hands.append(line("bcfrom %d" % k, g))
+    for k in range(2, 8):
         hands.append(line("bcfrom %d" % k, [0] * k))
         hands.append(line("bcfrom %d" % k, [DECK[0]] * k))
     texts = [l for l in c12_families(rng, "quick")[1]["lines"] if l.startswith("bcindex")]
@@ -771,13 +807,21 @@ def c19_families(rng, tier):
             hist.append("hist %d new %s set %d %d" % (n_slots, " ".join(map(str, base)), slot, 77 + slot))
             hist.append("hist %d default set %d %d" % (n_slots, slot, 5 + slot))
         hist.append("hist %d refarr %s" % (n_slots, " ".join(str(9 + i) for i in range(n_slots))))
+        # boundary words into every slot over an occupied slot: blank (0), u32::MAX, and a word already present elsewhere
+        for slot in range(n_slots):
+            base = [DECK[i] for i in range(n_slots)]
+            other = base[(slot + 1) % n_slots]
+            hist.append("hist %d arr %s set %d 0 set %d %d set %d 4294967295 set %d %d set %d 0"
+                        % (n_slots, " ".join(map(str, base)), slot, slot, DECK[20], slot, slot, other, (slot + 1) % n_slots))
     for i in range(n):
         n_slots = 2 + i % 6
         toks = ["hist", str(n_slots)]
         for _ in range(1 + rng.below(40)):
             k = rng.below(10)
             if k < 7:
-                toks += ["set", str(rng.below(n_slots)), str(rng.next() & 0xFFFFFFFF if rng.below(2) else rng.choice(DECK))]
+                kind = rng.below(10)
+                w = 0 if kind == 0 else (rng.next() & 0xFFFFFFFF if kind < 5 else rng.choice(DECK))
+                toks += ["set", str(rng.below(n_slots)), str(w)]
                 cats["set"] += 1
             elif k == 7:
                 toks += ["arr"] + [str(rng.next() & 0xFFFFFFFF) for _ in range(n_slots)]
